@@ -31,7 +31,7 @@ def evaluate(name, checks):
     assert not sh("git status --porcelain", REPO).stdout.strip(), "/repo is dirty"
     ev = {"time": time.strftime("%Y-%m-%dT%H:%M:%S"), "repo_head": sh("git log --format=%h -1", REPO).stdout.strip(), "checks": {}}
     try:
-        shutil.copy(os.path.join(d, "seed_demo_test.go"), os.path.join(REPO, "seed_demo_test.go"))
+        shutil.copy(os.path.join(d, "seed_demo_test.go.txt"), os.path.join(REPO, "seed_demo_test.go"))
         r = sh("go test -count=1 -run 'TestSeedDemo' . 2>&1 | tail -3", REPO)
         ev["demo_on_unchanged_tree"] = "pass" if r.stdout.strip().startswith("ok") or "\nok" in r.stdout else "FAIL: " + r.stdout[-300:]
         r = sh(f"git apply {d}/patch.diff", REPO)
@@ -74,7 +74,8 @@ def main():
         d = os.path.join(VERIF, "seeded", name)
         os.makedirs(d, exist_ok=True)
         for f in ("patch.diff", "seed_demo_test.go", "meta.json"):
-            shutil.copy(os.path.join(wt, "SEED", f), os.path.join(d, f))
+            # the demonstration is stored as .txt so that `go vet ./...` in /verif does not see a stray package
+            shutil.copy(os.path.join(wt, "SEED", f), os.path.join(d, f + (".txt" if f.endswith("_test.go") else "")))
         checks = sys.argv[4].split(",") if len(sys.argv) > 4 else ALL
         ev = evaluate(name, checks)
     else:
